@@ -126,7 +126,8 @@ def run(ctx):
 def _families(cases):
     d = {}
     for c in cases:
-        k = c['cat'].split(':')[0].split('-')[0]
+        k = ('guess' if c['mode'] in ('all', 'strict') else 'fromast' if c.get('call') == 'fromast'
+             else c['cat'].split(':')[0].split('-')[0])
         d[k] = d.get(k, 0) + 1
     return d
 
